@@ -739,14 +739,17 @@ def extract(repo, outdir, write_if_changed):
              "Data only (core Lean): each of the 16 pre-sieve buffers as ONE little-endian natural number\n"
              "(byte j of the buffer = (N >>> (8 j)) % 256), its length, and the primes its generator program names.\n"
              "Obligations: PcGen/PsPreSieveObl.lean.\n-/\n")
+    t.append("-- the big literals must not become start-up initialised constants of every executable that links this module\n"
+             "-- (0.4 s per process): they are functions of a unit argument and closed-term extraction is off in this file\n"
+             "set_option compiler.extract_closed false\n")
     t.append("namespace Pc.Gen\n")
     for k, vals in enumerate(tables):
         n = int.from_bytes(bytes(vals), "little")
-        t.append("def psPreTab%d : Nat := 0x%x" % (k, n))
+        t.append("def psPreTab%d (_u : Unit) : Nat := 0x%x" % (k, n))
     t.append("")
     t.append("/-- `(buffer as a number, buffer length in bytes, primes of the buffer)` for the 16 buffers -/")
-    t.append("def psPreTabs : List (Nat × Nat × List Nat) := [\n" + ",\n".join(
-        "  (psPreTab%d, %d, [%s])" % (k, len(tables[k]), ", ".join(str(p) for p in sets[k])) for k in range(16)) + "]\n")
+    t.append("def psPreTabs (u : Unit) : List (Nat × Nat × List Nat) := [\n" + ",\n".join(
+        "  (psPreTab%d u, %d, [%s])" % (k, len(tables[k]), ", ".join(str(p) for p in sets[k])) for k in range(16)) + "]\n")
     t.append("end Pc.Gen\n")
     ch2 = write_if_changed(os.path.join(outdir, "PsPreSieveData.lean"), "\n".join(t))
 
@@ -831,11 +834,11 @@ end Pc.Gen
     po.append("namespace Pc.Gen\nopen Pc.PsWheelSpec\n")
     for k in range(16):
         ps = ", ".join(str(p) for p in sets[k])
-        po.append("theorem psPreTab%d_ok : psPreTab%d = preBufPeriodic [%s] %d ∧ %d = [%s].foldl (· * ·) 1 := by decide +kernel"
+        po.append("theorem psPreTab%d_ok : psPreTab%d () = preBufPeriodic [%s] %d ∧ %d = [%s].foldl (· * ·) 1 := by decide +kernel"
                   % (k, k, ps, len(tables[k]), len(tables[k]), ps))
     po.append("")
     po.append("/-- the prime sets are pairwise disjoint and together are exactly the primes 7 … 163 -/")
-    po.append("theorem psPreTabs_primes_ok : isort (psPreTabs.flatMap (·.2.2)) = expectedPreSievePrimes := by decide +kernel")
+    po.append("theorem psPreTabs_primes_ok : isort ((psPreTabs ()).flatMap (·.2.2)) = expectedPreSievePrimes := by decide +kernel")
     po.append("\nend Pc.Gen\n")
     ch4 = write_if_changed(os.path.join(outdir, "PsPreSieveObl.lean"), "\n".join(po))
 
